@@ -12,6 +12,10 @@ EXACT_OPTS = ('sgd', 'momentum', 'nesterov')
 OTHER_OPTS = ('adam', 'adagrad', 'rmsprop', 'yogi')
 
 
+class InputInvalidated(Exception):
+  pass
+
+
 class Watchdog:
   """SIGALRM based: interrupts a pure-Python loop that never terminates."""
 
@@ -117,13 +121,16 @@ class C01(core.Property):
         return [kind, rng.choice([0.125, 0.25, 0.0625, 0.5]), rng.choice([0.5, 0.25, 0.75])]
       exact = rng.random() < 0.7
       rounds = []
+      # ids come from a small population, so clients return in later rounds with different data
+      population = [rng.randrange(0, 50) * 100 + k for k in range(8)]
       for r in range(rng.randrange(1, 4)):
         cohort = []
+        pool = rng.sample(population, 6)
         for c in range(rng.choice([0, 1, 2, 3, 3, 4, 5, 6])):
           n_ex = rng.choice([0, 0, 1, 2, 3, 4, 5, 7, 9])
           xs = [[rng.choice([-1, 0, 1, 2]) for _ in range(d)] for _ in range(n_ex)]
           ys = [rng.choice([-2, -1, 0, 1, 3]) for _ in range(n_ex)]
-          cohort.append({'id': rng.randrange(0, 50) * 100 + c, 'x': xs, 'y': ys})
+          cohort.append({'id': pool[c], 'x': xs, 'y': ys})
         rounds.append(cohort)
       epochs = rng.choice([None, 1, 1, 2, 3])
       steps = rng.choice([None, None, 0, 1, 3, 5]) if epochs is not None else rng.choice([0, 1, 3, 4])
@@ -167,6 +174,11 @@ class C01(core.Property):
     backend = case['backend']
     if backend == 'pmap':
       backend = self.fec.ForEachClientPmapBackend(jax.local_devices()[:case['D']])
+    with self.fec.for_each_client_backend(backend):
+      # the backend is chosen when the algorithm is constructed; ONE algorithm object serves the whole
+      # multi-round history, as in a real experiment
+      alg_b = self.fed_avg.federated_averaging(self.grad_fn, self.mk_opt(case['copt']),
+                                               self.mk_opt(case['sopt']), hp)
     for ri, cohort in enumerate(case['rounds']):
       keys = jax.random.split(jax.random.PRNGKey(case['key_seed'] + ri), max(1, len(cohort)))
       logs = [[] for _ in cohort]
@@ -178,12 +190,15 @@ class C01(core.Property):
       idx = list(range(len(clients)))
       if order_seed is not None:
         pyrandom.Random(order_seed * 31 + ri).shuffle(idx)
-      with self.fec.for_each_client_backend(backend):
-        # the backend is chosen when the algorithm is constructed; rebuild under the context
-        alg_b = self.fed_avg.federated_averaging(self.grad_fn, self.mk_opt(case['copt']),
-                                                 self.mk_opt(case['sopt']), hp)
-        with Watchdog(20):
-          state, diag = alg_b.apply(state, [clients[i] for i in idx])
+      prev_state = state
+      with Watchdog(20):
+        state, diag = alg_b.apply(state, [clients[i] for i in idx])
+      # the caller's input state must stay valid and unchanged (it may be kept, re-used, checkpointed)
+      try:
+        for leaf in jax.tree_util.tree_leaves((prev_state.params, prev_state.opt_state)):
+          np.asarray(leaf)
+      except RuntimeError as e:
+        raise InputInvalidated(f'round {ri}: the input server state is no longer readable after apply(): {str(e)[:120]}')
       out_states.append(state)
       out_diag.append(diag)
       out_logs.append(logs)
@@ -215,6 +230,8 @@ class C01(core.Property):
       return Outcome(oracle_fail='the round never returns (watchdog 20 s): an empty client dataset with '
                      'num_epochs=None and num_steps>0 makes shuffle_repeat_batch spin without yielding',
                      key='C01/empty-client/steps-only-never-returns', tags=tuple(tags))
+    except InputInvalidated as e:
+      return Outcome(oracle_fail=str(e), key='C01/input-state-invalidated', tags=tuple(tags))
     except Exception as e:
       return Outcome(oracle_fail=f'round raised {type(e).__name__}: {str(e)[:200]}', tags=tuple(tags))
     problems, corr = [], []
